@@ -274,6 +274,28 @@ class _Expr(ast.NodeTransformer):
     def visit_Call(self, node):
         self.generic_visit(node)
         f = node.func
+        # (A if c else B)(args)  ->  A(args) if c else B(args)      (the test is evaluated first either way; pure arguments only)
+        if isinstance(f, ast.IfExp) and all(is_pure(a) for a in node.args) and all(is_pure(k.value) for k in node.keywords):
+            return at(ast.IfExp(test=f.test,
+                                body=ast.Call(func=f.body, args=[clone(a) for a in node.args], keywords=[clone(k) for k in node.keywords]),
+                                orelse=ast.Call(func=f.orelse, args=[clone(a) for a in node.args], keywords=[clone(k) for k in node.keywords])), node)
+        # f(*[a, *X])  ->  f(a, *X)        f(*(A + B))  ->  f(*A, *B)
+        if any(isinstance(a, ast.Starred) and (isinstance(a.value, (ast.List, ast.Tuple)) or
+                                                (isinstance(a.value, ast.BinOp) and isinstance(a.value.op, ast.Add))) for a in node.args):
+            new_args = []
+
+            def splice(a):
+                if isinstance(a, ast.Starred) and isinstance(a.value, (ast.List, ast.Tuple)):
+                    for x in a.value.elts:
+                        splice(x)
+                elif isinstance(a, ast.Starred) and isinstance(a.value, ast.BinOp) and isinstance(a.value.op, ast.Add):
+                    splice(ast.Starred(value=a.value.left, ctx=ast.Load()))
+                    splice(ast.Starred(value=a.value.right, ctx=ast.Load()))
+                else:
+                    new_args.append(a)
+            for a in node.args:
+                splice(a)
+            node.args = [at(a, node) if not hasattr(a, 'lineno') else a for a in new_args]
         # set(a).issubset(b) -> set(a) <= set(b)      set(a).issuperset(b) -> set(a) >= set(b)
         if isinstance(f, ast.Attribute) and f.attr in ('issubset', 'issuperset') and len(node.args) == 1 and not node.keywords and _setish(f.value):
             other = node.args[0]
@@ -416,6 +438,49 @@ class _Expr(ast.NodeTransformer):
         # a | b on truth values -> a or b
         if isinstance(node.op, (ast.BitOr, ast.BitAnd)) and _looks_boolean(node.left) and _looks_boolean(node.right):
             return mk_bool(ast.Or() if isinstance(node.op, ast.BitOr) else ast.And(), [node.left, node.right], node)
+        # (a, b) + (c, d) -> (a, b, c, d)     [a] + [b] -> [a, b]
+        if isinstance(node.op, ast.Add) and type(node.left) is type(node.right) and isinstance(node.left, (ast.Tuple, ast.List)):
+            return at(type(node.left)(elts=list(node.left.elts) + list(node.right.elts), ctx=ast.Load()), node)
+        # 'lit' + str(x) + 'lit' ...  ->  'lit%slit' % (x,)      (one spelling for text built from literals and str() pieces)
+        if isinstance(node.op, ast.Add):
+            parts = []
+
+            def flat(e):
+                if isinstance(e, ast.BinOp) and isinstance(e.op, ast.Add):
+                    flat(e.left)
+                    flat(e.right)
+                else:
+                    parts.append(e)
+            flat(node)
+
+            def is_lit(e):
+                return isinstance(e, ast.Constant) and isinstance(e.value, str)
+
+            def is_str(e):
+                return isinstance(e, ast.Call) and isinstance(e.func, ast.Name) and e.func.id == 'str' and len(e.args) == 1 and not e.keywords
+            if len(parts) >= 2 and all(is_lit(x) or is_str(x) for x in parts) and any(is_lit(x) for x in parts) and any(is_str(x) for x in parts):
+                fmt, args = '', []
+                for x in parts:
+                    if is_lit(x):
+                        fmt += x.value.replace('%', '%%')
+                    else:
+                        fmt += '%s'
+                        args.append(x.args[0])
+                right = args[0] if len(args) == 1 and not isinstance(args[0], (ast.Tuple, ast.Dict)) else ast.Tuple(elts=args, ctx=ast.Load())
+                if len(args) == 1 and isinstance(args[0], ast.Name) or len(args) > 1 or not isinstance(right, ast.Tuple):
+                    # a single argument that might be a tuple at run time must be wrapped
+                    if len(args) == 1:
+                        right = ast.Tuple(elts=args, ctx=ast.Load())
+                    return at(ast.BinOp(left=ast.Constant(value=fmt), op=ast.Mod(), right=right), node)
+        # 'fmt' % x  with a single non-tuple display argument -> 'fmt' % (x,)
+        if isinstance(node.op, ast.Mod) and isinstance(node.left, ast.Constant) and isinstance(node.left.value, str) and \
+                not isinstance(node.right, (ast.Tuple, ast.Dict)) and node.left.value.count('%') - 2 * node.left.value.count('%%') == 1 and \
+                (isinstance(node.right, ast.Call) and isinstance(node.right.func, ast.Name) and node.right.func.id in ('str', 'int', 'len', 'repr', 'float')):
+            node.right = at(ast.Tuple(elts=[node.right], ctx=ast.Load()), node.right)
+        return node
+
+    def visit_Starred(self, node):
+        self.generic_visit(node)
         return node
 
     def visit_Lambda(self, node):
@@ -489,6 +554,9 @@ def _truth_idioms(test):
         if inner is not test.operand:
             return neg(inner)
         return test
+    # len(x) in a truth position is x (the same assumption as `not len(x)` -> `not x`: emptiness is told by the length)
+    if isinstance(test, ast.Call) and isinstance(test.func, ast.Name) and test.func.id == 'len' and len(test.args) == 1 and not test.keywords:
+        return test.args[0]
     if isinstance(test, ast.BinOp) and isinstance(test.op, ast.Sub) and _setish(test.left) and _setish(test.right):
         return at(ast.UnaryOp(op=ast.Not(), operand=at(ast.Compare(left=test.left, ops=[ast.LtE()], comparators=[test.right]), test)), test)
     return test
@@ -773,6 +841,26 @@ class FunctionNormalizer(object):
                 if st is doc or isinstance(st, (ast.FunctionDef, ast.AsyncFunctionDef, ast.ClassDef)):
                     continue
                 self._exprs_of_stmt(st, tr)
+        self._scalar_percent()
+
+    def _scalar_percent(self):
+        ''''fmt' % n  ->  'fmt' % (n,)  where n is the variable of a loop / comprehension over range(..): an int, never a tuple'''
+        scalars = set()
+        for n in ast.walk(self.fn):
+            if isinstance(n, (ast.For, ast.comprehension)) and isinstance(n.target, ast.Name) and isinstance(n.iter, ast.Call) and \
+                    isinstance(n.iter.func, ast.Name) and n.iter.func.id == 'range':
+                scalars.add(n.target.id)
+        if not scalars:
+            return
+        stores = {}
+        for n in ast.walk(self.fn):
+            if isinstance(n, ast.Name) and isinstance(n.ctx, (ast.Store, ast.Del)):
+                stores[n.id] = stores.get(n.id, 0) + 1
+        scalars = {x for x in scalars if stores.get(x) == 1}
+        for n in ast.walk(self.fn):
+            if isinstance(n, ast.BinOp) and isinstance(n.op, ast.Mod) and isinstance(n.left, ast.Constant) and isinstance(n.left.value, str) and \
+                    isinstance(n.right, ast.Name) and n.right.id in scalars:
+                n.right = at(ast.Tuple(elts=[n.right], ctx=ast.Load()), n.right)
 
     def _exprs_of_stmt(self, st, tr):
         for fld, val in ast.iter_fields(st):
@@ -1662,6 +1750,17 @@ class FunctionNormalizer(object):
             while i < len(lst):
                 st = lst[i]
                 nxt = lst[i + 1] if i + 1 < len(lst) else None
+                # L = [a, ..]; L.extend(X) / L.append(x)   ->   L = [a, .., *X] / [a, .., x]      (a local list built step by step)
+                if isinstance(st, ast.Assign) and len(st.targets) == 1 and isinstance(st.targets[0], ast.Name) and isinstance(st.value, ast.List) and \
+                        isinstance(nxt, ast.Expr) and isinstance(nxt.value, ast.Call) and isinstance(nxt.value.func, ast.Attribute) and \
+                        isinstance(nxt.value.func.value, ast.Name) and nxt.value.func.value.id == st.targets[0].id and \
+                        nxt.value.func.attr in ('extend', 'append') and len(nxt.value.args) == 1 and not nxt.value.keywords and \
+                        self._is_local(st.targets[0].id) and st.targets[0].id not in names_loaded(nxt.value.args[0]):
+                    arg = nxt.value.args[0]
+                    new_el = arg if nxt.value.func.attr == 'append' else ast.Starred(value=arg, ctx=ast.Load())
+                    st.value = at(ast.List(elts=list(st.value.elts) + [new_el], ctx=ast.Load()), st.value)
+                    del lst[i + 1]
+                    continue
                 # x = x
                 if isinstance(st, ast.Assign) and len(st.targets) == 1 and isinstance(st.targets[0], ast.Name) and \
                         isinstance(st.value, ast.Name) and st.value.id == st.targets[0].id:
@@ -1687,6 +1786,18 @@ class FunctionNormalizer(object):
                     lst[i] = at(ast.Assign(targets=[ast.Name(id=nm, ctx=ast.Store())],
                                            value=ast.IfExp(test=st.test, body=st.body[0].value, orelse=st.orelse[0].value)), st)
                     continue
+                # if any(c for v in X): B  [else: E]   ->   for v in X: if c: B; break   [else: E]      (any() stops at the first true element)
+                if isinstance(st, ast.If) and isinstance(st.test, ast.Call) and isinstance(st.test.func, ast.Name) and st.test.func.id == 'any' and \
+                        len(st.test.args) == 1 and not st.test.keywords and isinstance(st.test.args[0], (ast.GeneratorExp, ast.ListComp)) and \
+                        isinstance(st.test.args[0], ast.GeneratorExp) and len(st.test.args[0].generators) == 1 and \
+                        not st.test.args[0].generators[0].is_async and not _has_free_loop_jump(st.body):
+                    g = st.test.args[0].generators[0]
+                    bound = names_stored(g.target)
+                    if not any(isinstance(n, ast.Name) and n.id in bound for x in st.body + st.orelse for n in ast.walk(x)):
+                        conds = list(g.ifs) + [st.test.args[0].elt]
+                        inner = at(ast.If(test=mk_bool(ast.And(), conds, st), body=list(st.body) + [at(ast.Break(), st)], orelse=[]), st)
+                        lst[i] = at(ast.For(target=g.target, iter=g.iter, body=[inner], orelse=list(st.orelse)), st)
+                        continue
                 # for T in (E for v in X if c): BODY   ->   for v in X: if c: T = E; BODY      (a generator expression is consumed lazily,
                 # element by element, so the interleaving is the same)
                 if isinstance(st, ast.For) and isinstance(st.iter, ast.GeneratorExp) and len(st.iter.generators) == 1 and not st.orelse and \
@@ -3077,11 +3188,40 @@ class Normalizer(object):
     def wanted(self, q):
         return self.only is None or q in self.only or (self.inventory is not None and q not in self.inventory)
 
+    def _private_constants(self, tree):
+        '''private module-level names bound exactly once to an immutable literal (tuples of constants, strings, numbers): a table a
+        refactoring moved out of a function; it is read where it is used'''
+        def immutable(e):
+            if isinstance(e, ast.Constant):
+                return True
+            if isinstance(e, ast.Tuple):
+                return all(immutable(x) for x in e.elts)
+            return False
+        cands, count = {}, {}
+        for n in ast.walk(tree):
+            if isinstance(n, ast.Name) and isinstance(n.ctx, (ast.Store, ast.Del)):
+                count[n.id] = count.get(n.id, 0) + 1
+            elif isinstance(n, (ast.Global, ast.Nonlocal)):
+                for x in n.names:
+                    count[x] = count.get(x, 0) + 2
+        for st in tree.body:
+            if isinstance(st, ast.Assign) and len(st.targets) == 1 and isinstance(st.targets[0], ast.Name):
+                nm = st.targets[0].id
+                if nm.startswith('_') and not nm.startswith('__') and immutable(st.value) and isinstance(st.value, ast.Tuple):
+                    cands[nm] = st.value
+        return {k: v for k, v in cands.items() if count.get(k) == 1}
+
     def run(self):
         for name, mod in self.modules.items():
             sigs = self._signatures(mod.tree)
+            consts = self._private_constants(mod.tree)
             for q, fn, cls in self.functions(mod.tree, name):
                 if self.wanted(q):
+                    if consts and (self.light is None or q not in self.light):
+                        local = names_stored(fn) | {x.arg for x in ast.walk(fn.args) if isinstance(x, ast.arg)}
+                        use = {k: v for k, v in consts.items() if k not in local}
+                        if use and any(isinstance(n, ast.Name) and n.id in use for n in ast.walk(fn)):
+                            fn.body = [_Subst(use).visit(x) for x in fn.body]
                     if self.light is None or q not in self.light:
                         self._positional(fn, sigs)
                     self._nested_first(fn)
@@ -3106,6 +3246,47 @@ class Normalizer(object):
                         a = m.args
                         if not (a.vararg or a.kwarg or a.kwonlyargs):
                             out[n.name] = [x.arg for x in a.posonlyargs + a.args][1:]
+        # classes that inherit their constructor from a class of the same module
+        classes_ = {n.name: n for n in tree.body if isinstance(n, ast.ClassDef)}
+        for n in tree.body:
+            if isinstance(n, ast.ClassDef) and n.name not in out and not any(isinstance(m, ast.FunctionDef) and m.name == '__init__' for m in n.body):
+                cur, hops = n, 0
+                while cur is not None and hops < 6:
+                    hops += 1
+                    nxt = None
+                    for b in cur.bases:
+                        if isinstance(b, ast.Name) and b.id in classes_:
+                            nxt = classes_[b.id]
+                            break
+                    if nxt is None:
+                        break
+                    if nxt.name in out:
+                        out[n.name] = out[nxt.name]
+                        break
+                    if any(isinstance(m, ast.FunctionDef) and m.name == '__init__' for m in nxt.body):
+                        break
+                    cur = nxt
+        # methods whose name denotes one signature in the module: X.m(a, k=b) can be compared with X.m(a, b)
+        meths = {}
+        for n in ast.walk(tree):
+            if isinstance(n, ast.ClassDef):
+                for m in n.body:
+                    if isinstance(m, ast.FunctionDef) and not (m.name.startswith('__') and m.name.endswith('__')):
+                        a = m.args
+                        static = any(isinstance(d, ast.Name) and d.id == 'staticmethod' for d in m.decorator_list)
+                        ps = [x.arg for x in a.posonlyargs + a.args]
+                        sig = None if (a.vararg or a.kwarg or a.kwonlyargs) else tuple(ps if static else ps[1:])
+                        meths.setdefault(m.name, set()).add(sig)
+        self._method_sigs = {k: list(next(iter(v))) for k, v in meths.items() if len(v) == 1 and None not in v and k not in out}
+        # defaults of the callables above (a trailing argument equal to its default can be left out)
+        self._defaults = {}
+        for n in ast.walk(tree):
+            if isinstance(n, ast.FunctionDef):
+                a = n.args
+                ps = [x.arg for x in a.posonlyargs + a.args]
+                for p_, d in zip(ps[len(ps) - len(a.defaults):], a.defaults):
+                    if isinstance(d, ast.Constant):
+                        self._defaults.setdefault(n.name, {}).setdefault(p_, set()).add(repr(d.value))
         # a pure forwarder  def f(*args, **kwargs): [assert | return] g(*args, **kwargs)  takes the parameters of g
         for n in tree.body:
             if isinstance(n, ast.FunctionDef) and n.args.vararg and n.args.kwarg and not (n.args.args or n.args.posonlyargs or n.args.kwonlyargs):
@@ -3125,14 +3306,39 @@ class Normalizer(object):
         return out
 
     def _positional(self, fn, sigs):
-        '''f(a, y=b) -> f(a, b) when y is the next parameter of the (same-module) callee'''
+        '''f(a, y=b) -> f(a, b) when y is the next parameter of the (same-module) callee; X.m(a, y=b) likewise when the method name m
+        denotes one signature in the module; a trailing argument that repeats the callee's (one) constant default is left out'''
         local = names_stored(fn) | {x.arg for x in ast.walk(fn.args) if isinstance(x, ast.arg)}
+        msigs = getattr(self, '_method_sigs', {})
+        defaults = getattr(self, '_defaults', {})
         for n in ast.walk(fn):
-            if isinstance(n, ast.Call) and isinstance(n.func, ast.Name) and n.func.id in sigs and n.func.id not in local and n.keywords \
-                    and not any(isinstance(x, ast.Starred) for x in n.args) and all(k.arg for k in n.keywords):
-                params = sigs[n.func.id]
-                while n.keywords and len(n.args) < len(params) and n.keywords[0].arg == params[len(n.args)]:
-                    n.args.append(n.keywords.pop(0).value)
+            if not isinstance(n, ast.Call) or any(isinstance(x, ast.Starred) for x in n.args) or not all(k.arg for k in n.keywords):
+                continue
+            name = params = None
+            if isinstance(n.func, ast.Name) and n.func.id in sigs and n.func.id not in local:
+                name, params = n.func.id, sigs[n.func.id]
+            elif isinstance(n.func, ast.Attribute) and n.func.attr in msigs:
+                name, params = n.func.attr, msigs[n.func.attr]
+            if params is None:
+                continue
+            if n.keywords:
+                given = {k.arg: k.value for k in n.keywords}
+                if len(given) == len(n.keywords) and all(k in params for k in given) and not any(k in params[:len(n.args)] for k in given):
+                    while len(n.args) < len(params) and params[len(n.args)] in given:
+                        n.args.append(given.pop(params[len(n.args)]))
+                    n.keywords = [k for k in n.keywords if k.arg in given]
+            # trailing defaults
+            dm = defaults.get(name if name != getattr(n.func, 'id', None) or True else name, {})
+            if isinstance(n.func, ast.Name) and n.func.id in sigs and n.func.id[:1].isupper():
+                dm = defaults.get('__init__', {}) if False else dm
+            while not n.keywords and n.args and len(n.args) <= len(params):
+                p_ = params[len(n.args) - 1]
+                dv = dm.get(p_)
+                last = n.args[-1]
+                if dv and len(dv) == 1 and isinstance(last, ast.Constant) and repr(last.value) in dv and not isinstance(n.func, ast.Name):
+                    n.args.pop()
+                else:
+                    break
 
     def _nested_first(self, fn):
         if self.light is not None:
